@@ -396,7 +396,9 @@ func (m *Decisions) AfterScan(ctx *h.ScanCtx) []h.Violation {
 			}
 			if !ok {
 				sig := "C06/band/" + d.Class
-				if d.Edge != "" {
+				if d.Edge != "" && floatInexactAtEdge(g, d) {
+					// exact utilisation sits on a threshold but the float64 evaluation of the documented
+					// formula req/cap*100 does not: the known float-equality family
 					sig = "C06/band-edge/float-equality/" + d.Edge
 				}
 				if trigger {
@@ -482,4 +484,18 @@ func maxAgePossible(g *h.GroupView, now time.Time) bool {
 		}
 	}
 	return false
+}
+
+// floatInexactAtEdge reports whether float64(req)/float64(cap)*100 (in milli-units, as the
+// documentation's formula is evaluated in float64) differs from the threshold the exact
+// utilisation equals.
+func floatInexactAtEdge(g *h.GroupView, d ref.Decision) bool {
+	th := map[string]int{"lower": g.Spec.Opts.TaintLowerCapacityThresholdPercent, "upper": g.Spec.Opts.TaintUpperCapacityThresholdPercent, "up": g.Spec.Opts.ScaleUpThresholdPercent}[d.Edge]
+	fc := float64(d.ReqCPU) / float64(d.CapCPU) * 100
+	fm := float64(d.ReqMem*1000) / float64(d.CapMem*1000) * 100
+	f := fc
+	if fm > f {
+		f = fm
+	}
+	return f != float64(th)
 }
